@@ -69,6 +69,13 @@ def Rq.timeout (s : Rq) (ci : Nat) : Rq :=
   | some c => if c.state = .waiting then { s with calls := setState s.calls ci .timedOut } else s
   | none => s
 
+/-- The per-call timer. `coversSend`: the timeout future includes handing the request to the transport
+    (`Gen.Client.requestTimeoutCoversSend`); if it does not, the timer of a call only starts once its send has
+    completed (`sent ci`), and a call whose send never completes (a replier that has stopped reading: the
+    requestor's stream window fills up) can never time out. -/
+def Rq.timeoutIfArmed (coversSend : Bool) (sent : Nat → Bool) (s : Rq) (ci : Nat) : Rq :=
+  if coversSend || sent ci then s.timeout ci else s
+
 inductive RqEvent where
   | call
   | arrive (r : Reply)
